@@ -1,6 +1,7 @@
 package bcheck
 
 import (
+	"crypto/tls"
 	"fmt"
 	"net"
 	"strings"
@@ -21,7 +22,7 @@ import (
 func init() {
 	Registry["C10"] = &Check{
 		Scenarios: c10Scenarios,
-		Rule: "one state machine serves 300 sequential peers (CER, then RAR / STR / ACR for the by-name, by-index and catch-all handlers), with the optional HandshakeNotify channel never read and drained; on the server side another peer has completed its capabilities exchange with the same state machine on a connection of its own before every history; message flag bits P and T rotate with the position in the history; server side: every history of <=4 (thorough 5) peer messages over {acceptable CER, CER without common application, CER lacking Origin-Host and every application AVP, retransmitted CER, DWR, RAR (app 0), RAA, CCR (app 4), ACR (app 3)}; client side (sm.Client.NewConn): every history of <=4 (thorough 5) messages over {success CEA, failing CEA (result code rotating over 5010, 1001, 3004, 1, 4001, 5012), application-less CEA, a CER sent by the peer, DWR, RAR, RAA, CCA} sent in reply to the CER; application handlers registered by short name, by index and as catch-all (three configurations; names and the catch-all through HandleFunc in the one-segment histories and through Handle with a handler object in the others), each after attempts to register CER / CEA / DWR by name and by index; each history delivered in one segment and one segment per message; and histories (one shorter, with an unsolicited success CEA added to the alphabet) on an accepted connection served by a state machine that is also the handler of an sm.Client whose dial has completed. Plus scheduled scenarios (preemption bound 2, thorough 3): the peer never answers the CER and sends application requests half an interval before, exactly at and half an interval after the instant the client's handshake gives up. One deterministic schedule per history on the instrumented build (the quantifier is over histories; the scheduler supplies determinism and an exact notion of quiescence). Oracle: the sequence of application-handler invocations equals the gate model (invoked iff the handshake succeeded earlier on this connection), refused registrations never run, and the built-in CEA/DWA are still produced.",
+		Rule: "the server side of a connection over TLS (crypto/tls on both ends of the in-memory transport): CER with Inband-Security-Id {absent, 0, 1} x applications {shared, unsupported, none, vendor-specific unsupported, wrong type} followed by RAR / STR / ACR in the same TLS record; one state machine serves 300 sequential peers (CER, then RAR / STR / ACR for the by-name, by-index and catch-all handlers), with the optional HandshakeNotify channel never read and drained; on the server side another peer has completed its capabilities exchange with the same state machine on a connection of its own before every history; message flag bits P and T rotate with the position in the history; server side: every history of <=4 (thorough 5) peer messages over {acceptable CER, CER without common application, CER lacking Origin-Host and every application AVP, retransmitted CER, DWR, RAR (app 0), RAA, CCR (app 4), ACR (app 3)}; client side (sm.Client.NewConn): every history of <=4 (thorough 5) messages over {success CEA, failing CEA (result code rotating over 5010, 1001, 3004, 1, 4001, 5012), application-less CEA, a CER sent by the peer, DWR, RAR, RAA, CCA} sent in reply to the CER; application handlers registered by short name, by index and as catch-all (three configurations; names and the catch-all through HandleFunc in the one-segment histories and through Handle with a handler object in the others), each after attempts to register CER / CEA / DWR by name and by index; each history delivered in one segment and one segment per message; and histories (one shorter, with an unsolicited success CEA added to the alphabet) on an accepted connection served by a state machine that is also the handler of an sm.Client whose dial has completed. Plus scheduled scenarios (preemption bound 2, thorough 3): the peer never answers the CER and sends application requests half an interval before, exactly at and half an interval after the instant the client's handshake gives up. One deterministic schedule per history on the instrumented build (the quantifier is over histories; the scheduler supplies determinism and an exact notion of quiescence). Oracle: the sequence of application-handler invocations equals the gate model (invoked iff the handshake succeeded earlier on this connection), refused registrations never run, and the built-in CEA/DWA are still produced.",
 		Assume: []string{"single default schedule per history", "reference gate model {handshake done, closed}"},
 		QuickBudget: 120, ThoroughBudget: 1800,
 	}
@@ -192,6 +193,7 @@ func c10Scenarios(tier string) []*Scenario {
 			out = append(out, c10TimeoutTie(cfg, at, tb))
 		}
 	}
+	out = append(out, &Scenario{Name: "server/tls-connection", Seq: c10OverTLS})
 	for _, drain := range []bool{false, true} {
 		drain := drain
 		out = append(out, &Scenario{Name: fmt.Sprintf("server/many-sequential-peers/handshake-notify-read=%v", drain), Seq: func(r *SeqResult) { c10ManyPeers(r, drain) }})
@@ -705,5 +707,118 @@ func c10ManyPeers(r *SeqResult, drain bool) {
 	if verdict != "" {
 		r.Violation = fmt.Sprintf("%s (HandshakeNotify read by the application: %v; library goroutines blocked at the end: %v)", verdict, drain, blocked)
 		r.Case = map[string]interface{}{"scenario": "many-peers", "drain": drain}
+	}
+}
+
+// c10OverTLS: the server side of a connection that runs over TLS (the state machine sees
+// Conn.TLS() != nil). The transport's security changes nothing about the capabilities exchange: a
+// CER is accepted exactly when it shares an application and asks for no in-band security, and the
+// by-name, by-index and catch-all handlers run only after an accepted one.
+func c10OverTLS(r *SeqResult) {
+	type cerCase struct {
+		name   string
+		inband int // -1 absent
+		apps   []refcodec.Node
+		wantRC uint32
+	}
+	vs10415 := func(kids ...refcodec.Node) refcodec.Node {
+		return refcodec.Node{Code: 260, Flags: 0x40, Group: true, Children: append([]refcodec.Node{u32avp(266, 10415)}, kids...)}
+	}
+	var cases []cerCase
+	for _, inband := range []int{-1, 0, 1} {
+		for _, a := range []struct {
+			name   string
+			nodes  []refcodec.Node
+			shared bool
+		}{{"Auth4", []refcodec.Node{u32avp(258, 4)}, true}, {"Auth999", []refcodec.Node{u32avp(258, 999)}, false}, {"no-application", nil, false},
+			{"VS[Vendor,Auth999]", []refcodec.Node{vs10415(u32avp(258, 999))}, false}, {"Acct4(wrong type)", []refcodec.Node{u32avp(259, 4)}, false}} {
+			rc := uint32(2001)
+			switch {
+			case inband > 0:
+				rc = 5017
+			case !a.shared && a.nodes == nil:
+				rc = 0 // refused: missing AVP or no common application, the statement leaves the code open
+			case !a.shared:
+				rc = 5010
+			}
+			cases = append(cases, cerCase{fmt.Sprintf("Inband-Security-Id=%d %s", inband, a.name), inband, a.nodes, rc})
+		}
+	}
+	for _, tc := range cases {
+		tc := tc
+		var got []string
+		var cea *PMsg
+		var note string
+		s := vs.Run(nil, false, 10*time.Second, false, func() {
+			conn := vnet.NewConn("T")
+			conn.Pieces = 1
+			settings := &sm.Settings{OriginHost: "srv", OriginRealm: "realm", VendorID: 13, ProductName: "prod",
+				HostIPAddresses: []datatype.Address{datatype.Address(net.ParseIP("10.0.0.1"))}}
+			mach := sm.New(settings)
+			mach.HandleFunc("RAR", func(c diam.Conn, m *diam.Message) { got = append(got, "name") })
+			mach.HandleIdx(diam.CommandIndex{AppID: 0, Code: 275, Request: true}, diam.HandlerFunc(func(c diam.Conn, m *diam.Message) { got = append(got, "index") }))
+			mach.HandleFunc("ALL", func(c diam.Conn, m *diam.Message) { got = append(got, "all") })
+			tlsConn := tls.Server(conn, &tls.Config{Certificates: []tls.Certificate{c12TLSCert()}, MinVersion: tls.VersionTLS12})
+			if _, err := diam.NewConn(tlsConn, "peer", mach, dict.Default); err != nil {
+				note = err.Error()
+				return
+			}
+			pc := tls.Client(&peerPipe{c: conn}, &tls.Config{InsecureSkipVerify: true, MinVersion: tls.VersionTLS12})
+			if err := pc.Handshake(); err != nil {
+				note = "peer: TLS handshake failed: " + err.Error()
+				return
+			}
+			avps := []refcodec.Node{ident(264, "cli"), ident(296, "test"), {Code: 257, Flags: 0x40, Payload: refcodec.Address(1, []byte{10, 0, 0, 9})}, u32avp(266, 13), {Code: 269, Payload: []byte("x")}}
+			if tc.inband >= 0 {
+				avps = append(avps, u32avp(299, uint32(tc.inband)))
+			}
+			avps = append(avps, tc.apps...)
+			base := []refcodec.Node{ident(264, "cli"), ident(296, "test")}
+			var all []byte
+			all = append(all, refcodec.EncodeMessage(refcodec.Header{Version: 1, Flags: 0x80, Code: 257, HbH: 1, E2E: 1}, avps)...)
+			all = append(all, refcodec.EncodeMessage(refcodec.Header{Version: 1, Flags: 0x80, Code: 258, HbH: 2, E2E: 2}, base)...)
+			all = append(all, refcodec.EncodeMessage(refcodec.Header{Version: 1, Flags: 0x80, Code: 275, HbH: 3, E2E: 3}, base)...)
+			all = append(all, refcodec.EncodeMessage(refcodec.Header{Version: 1, Flags: 0x80, Code: 271, App: 3, HbH: 4, E2E: 4}, base)...)
+			pc.Write(all) // the CER and three application requests in one TLS record
+			cea = readMsg(pc)
+			pc.Close()
+		})
+		panics := s.Panics()
+		s.Teardown()
+		r.Cases++
+		r.Distinct++
+		if r.Sample == "" {
+			r.Sample = "CER + RAR + STR + ACR in one TLS record: " + tc.name
+		}
+		if r.Violation != "" {
+			continue
+		}
+		v := ""
+		rc := uint32(0)
+		if cea != nil && cea.Find(268) != nil {
+			rc = be32(cea.Find(268).Payload)
+		}
+		switch {
+		case note != "":
+			v = "harness: " + note
+		case len(panics) > 0:
+			v = "panic: " + panics[0]
+		case cea == nil || cea.Hdr.Code != 257:
+			v = "no CEA came back"
+		case tc.wantRC == 2001 && rc != 2001:
+			v = fmt.Sprintf("an acceptable CER was answered with Result-Code %d", rc)
+		case tc.wantRC != 2001 && rc == 2001:
+			v = "a CER that shares no application (or asks for in-band security) was answered with a success CEA"
+		case tc.wantRC > 2001 && rc != tc.wantRC:
+			v = fmt.Sprintf("refused with Result-Code %d, expected %d", rc, tc.wantRC)
+		case tc.wantRC == 2001 && fmt.Sprint(got) != "[name index all]":
+			v = fmt.Sprintf("after the accepted CER the handlers that ran for RAR, STR, ACR are %v, expected [name index all]", got)
+		case tc.wantRC != 2001 && len(got) > 0:
+			v = fmt.Sprintf("the CER was refused, yet application handlers ran: %v", got)
+		}
+		if v != "" {
+			r.Violation = fmt.Sprintf("server side of a TLS connection, CER with %s: %s", tc.name, v)
+			r.Case = map[string]interface{}{"tls-cer": tc.name}
+		}
 	}
 }
